@@ -9,27 +9,35 @@ COMMON_ASSUME = [
 
 def lanes(quick_scale=1.0, thorough_scale=30.0, miri=None, asan=False, memcheck=False, quick_shards=8,
           miri_quick=True):
-    """Standard lane layout. `miri` = dict(stride, scale, widths) or None."""
+    """Standard lane layout. `miri` = dict(light, scale, widths) or None.
+
+    Light lanes (Miri, memcheck) thin the directed corpus at generation time with
+    probability `light` and run `scale` times the random budget; every shard
+    draws its own subset."""
     q = [dict(lane="checked", shards=quick_shards, scale=quick_scale),
          dict(lane="release", shards=quick_shards, scale=quick_scale)]
     t = [dict(lane="checked", shards=16, scale=thorough_scale),
          dict(lane="release", shards=16, scale=thorough_scale)]
     if miri:
-        mq = dict(lane="miri", shards=2, watchdog=3600)
+        mq = dict(lane="miri", shards=2, watchdog=3600, max_seconds=60)
         mq.update(miri)
         if miri_quick:
             q.append(mq)
         mt = dict(mq)
         mt["shards"] = 8
-        mt["stride"] = max(1, int(mq.get("stride", 1)) // 4)
+        mt["max_seconds"] = 600
+        mt["light"] = min(1.0, mq.get("light", 0.01) * 6)
+        mt["scale"] = mq.get("scale", 0.01) * 6
+        mt["watchdog"] = 14400
         t.append(mt)
         mr = dict(mt)
         mr["lane"] = "miri-release"
+        mr["shards"] = 4
         t.append(mr)
     if asan:
         t.append(dict(lane="asan", shards=16, scale=max(1.0, thorough_scale / 4)))
     if memcheck:
-        t.append(dict(lane="memcheck", shards=8, scale=0.05, watchdog=7200))
+        t.append(dict(lane="memcheck", shards=8, scale=0.05, light=0.05, watchdog=7200))
     return dict(quick=q, thorough=t)
 
 
@@ -37,7 +45,7 @@ PROPS = {
     "C01": dict(
         bin="c01",
         lanes=lanes(quick_scale=1.0, thorough_scale=40.0,
-                    miri=dict(stride=400, scale=0.02, widths=[0, 1, 7, 63, 64, 65, 128, 129, 256, 521]),
+                    miri=dict(light=0.004, scale=0.002, widths=[0, 1, 7, 63, 64, 65, 128, 129, 256, 521]),
                     miri_quick=False),
         primary_lane="checked",
         rule="Cases are (operation group, width, operand tuple): a fixed directed corpus (all pairs at BITS<=4, "
